@@ -183,6 +183,12 @@ func genIndep(tier string, rng *RNG, emit func(Case)) {
 		d = stripBytes(d, "\r")
 		pool = append(pool, d)
 	})
+	listBs := []string{"- a\n\n  b\n", "- a\n\n- b\n", "- a\n- b\n", "1. a\n\n   b\n", "- a\n\n      code\n", "> - a\n>\n>   b\n"}
+	for i := 0; i < n/20; i++ { // line counts 1..300 of a repeated unit in front of a list whose shape depends on blank-line bookkeeping
+		unit := []string{"- item\n", "x\n\n", "> q\n", "- item\n\n"}[rng.Intn(4)]
+		a := []byte(strings.Repeat(unit, 1+rng.Intn(300)))
+		emit(Case{Op: "pair", Args: []string{fmt.Sprint(rng.Intn(len(indepCfgs))), hx(a), hx([]byte(listBs[rng.Intn(len(listBs))]))}})
+	}
 	for i := 0; i < n; i++ {
 		a := stripBytes(pool[rng.Intn(len(pool))], "[")
 		b := stripBytes(pool[rng.Intn(len(pool))], "[")
@@ -235,7 +241,12 @@ func implIndep(cs Case) ImplResult {
 		if hasByte(d, "\r") || endsInsideRawBlock(c, d) || bytes.Contains(bytes.ToLower(d), []byte("zq")) {
 			return ImplResult{Out: "skip", NoModel: true}
 		}
-		defs := "[zq one]: /u1 \"t1\"\n[ZQTWO]: <u 2>\n[zq-3]: /u3\n"
+		defs := []string{
+			"[zq one]: /u1 \"t1\"\n[ZQTWO]: <u 2>\n[zq-3]: /u3\n",
+			"[zq one]: /u1\n\"t1\"\n[ZQTWO]: <u 2>\n[zq-3]: /u3 'last title'",
+			"[zq-3]: /u3\n[ZQTWO]: <u 2>\n[zq one]: /u1\n  \"title on its own line\"",
+			"[zq one]:\n/u1\n[zqtwo]: /u2 (paren title)\n[zq-3]: </u3>",
+		}[rng.Intn(4)]
 		variants := []string{"[zq one]", "[ZQ ONE]", "[zq   one]", "[Zq\none]", "[zqtwo]", "[ZqTwO][]", "[text][zq-3]", "[ zq-3 ]", "![i][ZQ-3]", "[undefinedzq]"}
 		var uses strings.Builder
 		for i, k := 0, 1+rng.Intn(4); i < k; i++ {
@@ -247,7 +258,7 @@ func implIndep(cs Case) ImplResult {
 			body += "\n"
 		}
 		body = uses.String() + "\n\n" + body + "\n" + uses.String() + "\n"
-		top := convertWith(c, []byte(defs+"\n"+body))
+		top := convertWith(c, []byte(defs+"\n\n"+body))
 		bottom := convertWith(c, []byte(body+"\n"+defs))
 		res.Key = c.Name() + "|defs|" + cs.Args[1] + cs.Args[2]
 		if !bytes.Equal(top, bottom) {
